@@ -37,7 +37,7 @@ func spaces(tier, only string) []space {
 	if thorough {
 		keys, pages, masterLen = []string{"a", "b/c", "b/d", "b/e/f", "b/e/g", "c/h", "z"}, []int{1000, 4, 3, 2, 1}, 5
 	}
-	all := []space{newJSONSpace("json", shallow, []int{0, 1, 2}), newJSONSpace("json-deep", sortShapes(deep), []int{0, 1, 2}),
+	all := []space{newJSONSpace("json", shallow, []int{0, 1, 2, 3}), newJSONSpace("json-deep", sortShapes(deep), []int{0, 1, 2}),
 		newXMLSpace(), newMediaSpace(), newMasterSpace(masterLen), newS3Space(keys, pages)}
 	if only == "" {
 		return all
